@@ -43,6 +43,7 @@ class Template:
         def show(t):
             if isinstance(t, str): return t
             if isinstance(t, (list, tuple)) and t and isinstance(t[0], (list, tuple)): return '[' + ', '.join(show(x) for x in t) + ']'
+            if isinstance(t, (list, tuple)) and len(t) == 2 and isinstance(t[0], str) and t[0].startswith('?'): return '%s == %s' % (t[0], show(t[1]))
             if t[0] == 'rule': return '%s: %s => %s' % (t[1], show(t[2]), show(t[3]))
             sig = O.SIG[t[0]]
             return '(' + t[0] + ''.join(' $' + 'abcdefghijklmnop'[a] if k in 'sb' else ' ' + show(a) for k, a in zip(sig, t[1:])) + ')'
@@ -181,6 +182,27 @@ class SymRun:
             lk = ex.call(self.M('lookup_rec_expr'), [Ref(re_, 'r'), self.egref])
             self.extra = {'extract': {'cf': cf, 'cost': conc(cost), 'term': self.describe_rec(re_['r']), 'lookup_some': lk.disc == 1,
                                       'lookup_eq': self.eq(lk.payload.f[0], self.handles[term]) if lk.disc == 1 else None}}
+            return
+        if op[0] == 'mmatch':
+            # multi-pattern: list of equations (?v, node pattern whose children are variables)
+            E_ = self.S.enums; eqs = []
+            for v, npat in op[1]:
+                pv = self.pat_value(npat)               # ENode(node, [PVar..])
+                kids = VecVal([PyStr(k.payload.f[0]) for k in pv.payload.f[1].items])
+                eqs.append(tup(PyStr(v[1:]), pv.payload.f[0], kids))
+            mp = {'m': Struct({0: VecVal(eqs)}, 'MultiPattern')}
+            before = self.fingerprint()
+            ms = ex.call(self.M('multi_ematch'), [Ref(mp, 'm'), self.egref])
+            out = []
+            for sub in ms.items:
+                bound = sorted(str(k) for k, _ in sub.items); holds = []
+                for v, npat in op[1]:
+                    inst = self.lookup_pattern(npat, sub); lhs = None
+                    for k, val in sub.items:
+                        if str(k) == v[1:]: lhs = val
+                    holds.append(bool(inst is not None and lhs is not None and self.eq(inst, lhs)))
+                out.append({'bound': bound, 'equations_hold': holds})
+            self.extra = {'mmatch': {'matches': sorted(out, key=lambda x: json.dumps(x, sort_keys=True)), 'unchanged': self.fingerprint() == before}}
             return
         if op[0] == 'rewrite':
             rws = [self.mk_rewrite(r) for r in op[1]]
